@@ -72,14 +72,6 @@ func (g *schemaGenerator) generateRootType() error {
 }
 
 func (g *schemaGenerator) generateReferencedType(t *schemas.Type) (codegen.Type, error) {
-	if schemaOutput, ok := g.outputs[g.schema.ID]; ok {
-		if decl, ok := schemaOutput.declsByName[t.Ref]; ok {
-			if decl != nil {
-				return decl.Type, nil
-			}
-		}
-	}
-
 	if t.Ref == "#" {
 		if schemaOutput, ok := g.outputs[g.schema.ID]; ok {
 			if decl, ok := schemaOutput.declsBySchema[t]; ok {
